@@ -190,9 +190,11 @@ class PDLInterpFunctions(InterpreterFunctions):
         args: tuple[Any, ...],
     ) -> tuple[Any, ...]:
         assert len(args) == 1
-        assert isinstance(args[0], SSAValue)
-        value = cast(SSAValue, args[0])
-        return (value.type,)
+        if isinstance(args[0], SSAValue):
+            return (args[0].type,)
+        # A range of values gives a range of types
+        values = cast(tuple[SSAValue, ...], args[0])
+        return (tuple(value.type for value in values),)
 
     @impl(pdl_interp.GetDefiningOpOp)
     def run_get_defining_op(
@@ -467,7 +469,13 @@ class PDLInterpFunctions(InterpreterFunctions):
                 properties[name] = prop_or_attr
             else:
                 attributes[name] = prop_or_attr
-        result_types = list(args[num_operands + num_attributes :])
+        result_types: list[Attribute] = []
+        for type_or_range in args[num_operands + num_attributes :]:
+            if isinstance(type_or_range, Attribute):
+                result_types.append(type_or_range)
+            else:
+                # A range of types
+                result_types.extend(type_or_range)
 
         # Create the new operation
         result_op = op_type.create(
